@@ -88,6 +88,24 @@ def d2(ctx, F):
         ins = [c for c in inserts if hs.dominates(p.bb, c.bb) and op_local(c.args[2]) in flow.derived(hs, {p.dest["l"]}, calls="all")]
         ctx.check(len(sp) == 1 and len(ins) == 1, "C17.D2.per-topic", "per-topic:%s" % p.callee.split("::")[-3],
                   "each new %s topic gets its own spawned router task and its own channel entry" % p.callee.split("::")[-3], p.span)
+    # every stream registration runs in its own task: handle_stream is only ever called from a future handed to tokio::spawn, so a
+    # registration that waits (for room in one topic's queue) cannot hold up the connection's accept loop or other streams
+    callers = F.callers_of("selium_server::server::handle_stream")
+    ctx.floor("C17.D2.own-task.call-sites", len(callers), 1)
+    for c in callers:
+        b = c.body
+        ctx.touch(b)
+        spawned = False
+        parent_path = b.path.rsplit("::{closure", 1)[0]
+        parent = F.bodies.get(parent_path)
+        if parent is not None and "{closure" in b.path:
+            for i, j, pl, rv, st_ in parent.assigns():
+                if rv["k"] == "agg" and rv.get("closure") == b.path:
+                    v = flow.derived(parent, {pl["l"]}, calls=())
+                    if any(strip_generics(x.callee) == "tokio::task::spawn::spawn" and any(op_local(a) in v for a in x.args) for x in parent.calls()):
+                        spawned = True
+        ctx.check(spawned, "C17.D2.own-task", "handle_stream-awaited-inline:%s" % b.path.split("selium_server::")[-1],
+                  "handle_stream runs in a task of its own (called only inside a future passed to tokio::spawn)", c.span)
     # routers share nothing: no Arc / Mutex / static in the router structs
     for adt in ("selium_server::topic::pubsub::Topic", "selium_server::topic::reqrep::Topic", "selium_server::sink::fanout_many::FanoutMany", "selium_server::sink::router::Router"):
         a = F.adt(adt)
